@@ -25,7 +25,7 @@ NSHARDS = {"quick": 8, "thorough": 16}
 FLOORS = {"quick": {"inputs_judged": 60000, "outcome:accepted": 5000, "outcome:rejected": 30000, "step_envelope_checks": 60000,
                     "root_block_types_accepted": 19, "long_inputs": 10, "stress_inputs_judged": 400},
           "thorough": {"inputs_judged": 800000, "outcome:accepted": 50000, "outcome:rejected": 400000, "step_envelope_checks": 800000,
-                       "root_block_types_accepted": 19, "long_inputs": 60, "stress_inputs_judged": 400}}
+                       "root_block_types_accepted": 19, "long_inputs": 40, "stress_inputs_judged": 400}}
 ASSUMPTIONS = ["the step envelope is A*chars+B with A = 8 x the largest steps/char seen on the corpus in this run (floor 256), B = max(5000, 4 x the largest step count of 20 tiny rejected inputs); "
                "the CPU envelope is C*chars+D with C = 50 x the corpus median per-char cost, D = 50 ms, confirmed by 3 isolated repetitions",
                "bulk inputs go through reused Parser/MapfileToDict objects (same code path as loads); a sample goes through mappyfile.loads"]
